@@ -45,7 +45,7 @@ impl Prop for P {
         }
     }
     fn cases(tier: Tier) -> u64 {
-        tier.pick(5000, 80_000)
+        tier.pick(50_000, 500_000)
     }
     fn strategy(tier: Tier) -> BoxedStrategy<Case> {
         let maxseg = tier.pick(20_000u32, 60_000);
